@@ -284,6 +284,29 @@ pub fn run(rep: &mut Report, thorough: bool) {
             let (k, s, t) = &pairs[d[0] as usize];
             elicit(*k, &dmacs[d[1] as usize], s, t)
         });
+        // ARP requests with other hardware types and declared address lengths, whose fixed target
+        // field (bytes 24..28) holds a FOREIGN address while every other 4-byte window behind it
+        // (the frame's padding) holds a handled one, and conversely: whatever field the responder
+        // checks, the address it advertises must be a handled one
+        {
+            let handled = match srv4() { Ip::V4(a) => a, _ => unreachable!() };
+            let foreign = [10u8, 0, 0, 77];
+            let htypes = [1u16, 6, 24, 0x0100];
+            let dims = [htypes.len() as u64, 13, 9, 2, 4];
+            sweep_frames(rep, cfg, &format!("arp-layouts-{}", tag), "ARP requests: 4 hardware types x declared hardware length 0..12 x protocol length 0..8 x {foreign target + handled address repeated in the padding, handled target + foreign address in the padding} x 4 alignments of the padding pattern", product(&dims), |i| {
+                let d = unrank(i, &dims);
+                let (tpa, fill) = if d[3] == 0 { (foreign, handled) } else { (handled, foreign) };
+                let mut a = Arp::request(MAC_CLI, [10, 0, 0, 9], tpa);
+                a.htype = htypes[d[0] as usize];
+                a.hlen = d[1] as u8;
+                a.plen = d[2] as u8;
+                let mut body = a.bytes();
+                for k in 0..40usize {
+                    body.push(fill[(k + d[4] as usize) % 4]);
+                }
+                eth(&[0xff; 6], &MAC_CLI, ET_ARP, &body)
+            });
+        }
         // frames that fail ONE filter (foreign destination MAC, denied source, foreign destination
         // address): no other byte of the frame may let them through - every byte position behind
         // the Ethernet addresses x all 256 values (the source port's high byte, a payload byte that
